@@ -15,7 +15,8 @@ from harness.core.trees import Universe
 PID = "C15"
 RULE = ("a case is a tree of dataclasses (depth <= 3, 1-5 fields each) over the intersection of the command-line and the "
         "serialization grammar {int,float,str,bool,Enum,Path,Literal,List[T],Tuple[T..],Tuple[T,...],Optional of these, "
-        "nested dataclass, Optional[dataclass]} with random definition defaults (missing / value / default_factory "
+        "nested dataclass, Optional[dataclass]} — about a third of the root classes have a field (leaf, or nested member whose field "
+        "names repeat the outer class's) NAMED like the destination (`config`, a custom dest=) — with random definition defaults (missing / value / default_factory "
         "instance) x a type-correct instance x (boundaries: 0, '', 'None', 'true', 10^30, inf, empty containers, None in "
         "Optionals, enum names equal to other members' values) x 4 formats x {config_path=, --config_path} x {parse(), "
         "ArgumentParser with a dest-keyed file}; the file is written by the real save() and the real parse of an empty "
@@ -182,11 +183,65 @@ def gen_class(rng, classes, counter, depth):
     return name
 
 
+OTHER_DESTS = ["cfg", "run_1", "options"]
+
+
+def add_dest_named_field(rng, classes, root, dest):
+    """give the root class a field whose NAME is the destination the instance is parsed into: a leaf, or a nested dataclass
+    member whose own field names are (a subset of) the outer class's leaf names — so that its dict could be mistaken for
+    the defaults of the whole class if the file's top-level `dest` key were read as a dest-keyed layout"""
+    rc = class_of(classes, root)
+    if any(f["name"] == dest for f in rc["fields"]):
+        return
+    leaves = [f for f in rc["fields"] if not is_dc(f["ty"])]
+    if leaves and rng.random() < 0.6:
+        picked = rng.sample(leaves, rng.randint(1, len(leaves)))
+        sub_fields = []
+        for f in picked:
+            d = f["default"]
+            nd = {"kind": "value", "v": G.gen_value(rng, f["ty"])} if (d["kind"] == "missing" or rng.random() < 0.5) else copy.deepcopy(d)
+            sub_fields.append({"name": f["name"], "ty": copy.deepcopy(f["ty"]), "default": nd})
+        name = f"K{len(classes) + 1}o"
+        classes.insert(len(classes) - 1, {"name": name, "fields": sub_fields})  # before the root (dependency order)
+        optional = rng.random() < 0.3
+        t = {"k": "opt", "inner": {"k": "dc", "cls": name}} if optional else {"k": "dc", "cls": name}
+        r = rng.random()
+        if r < 0.3:
+            d = {"kind": "missing"}
+        elif optional and r < 0.5:
+            d = {"kind": "value", "v": {"t": "none"}}
+        else:
+            d = {"kind": "factory", "v": default_instance(classes, name)}
+        rc["fields"].append({"name": dest, "ty": t, "default": d})
+    else:
+        t = gen_leaf_ty(rng)
+        r = rng.random()
+        if r < 0.3:
+            d = {"kind": "missing"}
+        elif t["k"] == "opt" and r < 0.6:
+            d = {"kind": "value", "v": {"t": "none"}}
+        else:
+            d = {"kind": "value", "v": G.gen_value(rng, t)}
+        rc["fields"].append({"name": dest, "ty": t, "default": d})
+    rc["fields"].sort(key=lambda f: f["default"]["kind"] != "missing")
+
+
 def gen_base(rng):
     classes: list[dict] = []
     root = gen_class(rng, classes, [0], rng.choice([0, 1, 1, 2, 2, 3]))
+    # the destination: parse()'s default `config`, a custom dest=, or the name of one of the root's own fields
+    r = rng.random()
+    names = [f["name"] for f in class_of(classes, root)["fields"]]
+    if r < 0.55:
+        dest = DEST
+    elif r < 0.7:
+        dest = rng.choice(OTHER_DESTS)
+    else:
+        dest = rng.choice(names)
+    if rng.random() < 0.35:
+        add_dest_named_field(rng, classes, root, dest)
     x = gen_instance(rng, classes, root)
-    return classes, root, x
+    return classes, root, x, dest
 
 
 def py_encode(v):
@@ -221,7 +276,8 @@ def mutate_file(rng, classes, root, entries):
     es, cls = rng.choice(lv)
     kind = rng.choice(["drop", "null", "unknown", "scalar_for_sub", "bad_str", "bad_enum", "str_for_any", "dict_for_leaf", "clear"])
     if kind == "unknown":
-        es.insert(rng.randint(0, len(es)), [rng.choice(["zzz", "extra", "config"]), {"k": "val", "v": {"t": "int", "v": "1"}}])
+        present = {n for n, _ in es}  # a dict has no duplicate keys
+        es.insert(rng.randint(0, len(es)), [rng.choice([n for n in ["zzz", "extra", "config", "cfg"] if n not in present]), {"k": "val", "v": {"t": "int", "v": "1"}}])
         return kind, entries
     if kind == "clear":
         del es[:]
@@ -259,8 +315,8 @@ def gen(rng, tier):
     workdir()
     n = 300 if tier == "quick" else 5000
     for i in range(n):
-        classes, root, x = gen_base(rng)
-        base = {"classes": classes, "root": root, "x": x, "dest": DEST}
+        classes, root, x, dest = gen_base(rng)
+        base = {"classes": classes, "root": root, "x": x, "dest": dest}
         for fmt in FMTS:
             for route in ROUTES:
                 for api in APIS:
@@ -273,14 +329,14 @@ def gen(rng, tier):
             api = rng.choice(APIS)
             lay = rng.random()
             if lay < 0.8:
-                top = entries if api == "parse" else [[DEST, {"k": "obj", "v": entries}]]
+                top = entries if api == "parse" else [[dest, {"k": "obj", "v": entries}]]
             elif lay < 0.9:
-                top = [[DEST, {"k": "obj", "v": entries}]] if api == "parse" else entries  # the other front end's layout
+                top = [[dest, {"k": "obj", "v": entries}]] if api == "parse" else entries  # the other front end's layout
                 kind += "+layout"
             else:
-                top = [[DEST, rng.choice([{"k": "val", "v": {"t": "none"}}, {"k": "val", "v": {"t": "int", "v": "3"}}])]]
+                top = [[dest, rng.choice([{"k": "val", "v": {"t": "none"}}, {"k": "val", "v": {"t": "int", "v": "3"}}])]]
                 kind += "+dest-scalar"
-            yield {"op": "cl.parse_file", "case": {"classes": classes, "root": root, "dest": DEST, "file": top, "api": api,
+            yield {"op": "cl.parse_file", "case": {"classes": classes, "root": root, "dest": dest, "file": top, "api": api,
                                                    "fmt": rng.choice(FMTS), "route": rng.choice(ROUTES), "mutation": kind}}
 
 
@@ -664,6 +720,8 @@ def tags(case, obs):
     t = [f"op:{case['op']}"]
     if case["op"] == "cl.encode":
         return t
+    root_names = [f["name"] for f in class_of(c["classes"], c["root"])["fields"]]
+    t.append("dest:" + ("config" if c["dest"] == DEST else "custom") + ("+is-field-name" if c["dest"] in root_names else ""))
     t += [f"api:{c['api']}", f"fmt:{c['fmt']}", f"route:{c['route']}", "out:" + (obs["o"] + (":" + obs.get("exc", "") if obs["o"] == "raise" else ""))]
     if case["op"] == "cl.parse_file":
         t.append("mut:" + c["mutation"])
